@@ -9,6 +9,7 @@ package simpleshell
  */
 
 import (
+	"cmp"
 	"context"
 	"fmt"
 	"io"
@@ -81,18 +82,22 @@ func (c *CmdShell) Output() io.ReadCloser { return c.outr }
 // Go runs c's [exec.Cmd].  ctx is not used; use [exec.CommandContext] or cause
 // an EOF on the [io.Reader] set via c.SetInPipe to stop Go.
 func (c *CmdShell) Go(ctx context.Context) error {
-	/* Start proxying output. */
+	/* Start the process going. */
+	if err := c.cmd.Start(); nil != err {
+		c.outw.CloseWithError(err)
+		return err
+	}
+
+	/* Proxy output until the process is finished with it.  We can't call
+	c.cmd.Wait until we've read everything, as it closes the pipes. */
 	var peg errgroup.Group
 	peg.Go(func() error { _, err := io.Copy(c.outw, c.sout); return err })
 	peg.Go(func() error { _, err := io.Copy(c.outw, c.serr); return err })
-
-	/* Start the process going. */
-	var eg errgroup.Group
-	eg.Go(func() error { return c.cmd.Run() })
-	eg.Go(func() error { return c.outw.CloseWithError(peg.Wait()) })
+	perr := peg.Wait()
+	c.outw.CloseWithError(perr)
 
 	/* Wait until everything finishes. */
-	return eg.Wait()
+	return cmp.Or(c.cmd.Wait(), perr)
 }
 
 // String calls c's [exec.Cmd.String].
